@@ -26,8 +26,12 @@ Proved here for every molecule description and every oracle (no well-posedness h
   `1 + (⌊target / mmin⌋ + 1)·(maxDescs + 1)` for the targets the oracle supplies: the `while True` loop ends by itself after at
   most `⌊target / mmin⌋ + 1` units, every capping round after at most as many steps as there are open descriptors.
 
-`C06_partial`: (i) the termination theorem is per object (its lift to `genMol` needs the bookkeeping "the remaining oracle is a
-suffix of the original" through every step, not done); in `C06_certified_generates` fuel exhaustion counts as benign; (ii) the older syntactic analysis `wellPosed` (Appendix A.2) is kept as the wider classifier of
+* `C06_generation_terminates`: the same for whole molecules (the remaining oracle is part of the given one through every step:
+  `genElems_fuel`): for a certified molecule with those mass bounds and the fuel above every object's bound, the only errors
+  `genMol` can still return are `badOracle` / `outOfOracle` — with a long enough fitting random history generation completes.
+
+`C06_partial`: (i) `maxDescs`, `mmin` and the no-list-into-end-group condition are hypotheses of the termination theorems (decidable, not
+part of `certify`); (ii) the older syntactic analysis `wellPosed` (Appendix A.2) is kept as the wider classifier of
 the check; `certify` is what the theorem covers.  The check evaluates both in the model for every generated instance, requires
 the implementation to complete on every oracle tried whenever either says so, and reports how many well-posed instances carry a
 certificate.
@@ -187,6 +191,26 @@ theorem C06_growth_terminates {o : Stoch} {m : Mode} {R : List Desc} {inc : Opti
     (hfuel : ∀ x, Event.draw x ∈ ω → 1 + unitsBound x mmin * (maxDescs o + 1) ≤ fuel) :
     genStoch o fuel pre ω ≠ .error .outOfFuel :=
   genStoch_fuel hok ht fuel hpre ω hfuel
+
+/-- **C06 (generation terminates)**: certified, repeat units of at least `ms` mass, lists inside the repeat units, fuel above every
+object's bound for the targets of the oracle: only the oracle can make generation fail -/
+theorem C06_generation_terminates (es : List Element) (cs : List ElemCert) (ms : List Rat) (h : certify es = some cs)
+    (hterm : ElemsTerm es cs ms none) (fuel : Nat) (ω : Oracle) (hfuel : FuelOK fuel es ms ω) :
+    ∀ e, genMol fuel es ω = .error e → e = .badOracle ∨ e = .outOfOracle := by
+  intro e he
+  have hok : ElemsOK es cs none := by
+    unfold certify at h
+    simp only at h
+    split at h
+    · rename_i hc
+      simp only [Bool.and_eq_true, Bool.not_eq_true', decide_eq_true_eq] at hc
+      injection h with h; subst h; exact hc.2
+    · cases h
+  rcases (C06_certified_generates es cs h fuel ω).1 e he with h1 | h1 | h1
+  · exact Or.inl h1
+  · exact Or.inr h1
+  · subst h1
+    exact absurd he (genElems_fuel fuel es cs ms none none ω trivial hok hterm hfuel)
 
 /-! non-vacuity: `C{[>][<]CC[>][<]}C`-like chain (prefix, two-descriptor unit, suffix) and an end-capped object are certified -/
 namespace C06Example
